@@ -93,7 +93,7 @@ pub fn usage(c: &HCase, st: &mut Stats) -> Result<(), String> {
                 kind: c.kind,
                 offered: c.offered,
                 policy: c.policy,
-                body: c20::Body::Gpu { w: 8, h: 4, edid: vec![0; 128], edid_size: 128, ops: vec![c20::GOp::Resolution, c20::GOp::GetEdid, c20::GOp::SetupFb, c20::GOp::Flush, c20::GOp::MoveCursor(1, 2)] },
+                body: c20::Body::Gpu { w: 8, h: 4, edid: vec![0; 128], edid_size: 128, ops: vec![c20::GOp::Resolution, c20::GOp::GetEdid, c20::GOp::EdidPreferred, c20::GOp::EdidSupported, c20::GOp::SetupFb, c20::GOp::Flush, c20::GOp::MoveCursor(1, 2), c20::GOp::SetupCursor { x: 1, y: 2, hx: 3, hy: 4, bad_len: false }, c20::GOp::ChangeRes(16, 8)] },
             },
             st,
         ),
@@ -109,6 +109,7 @@ pub fn usage(c: &HCase, st: &mut Stats) -> Result<(), String> {
                 buffered: c.drv == D::Net,
                 nsel: 1,
                 buf_len: 2048,
+                big: false,
                 ops: vec![c16::NOp::Send(60), c16::NOp::Send(0), c16::NOp::RxBegin, c16::NOp::Inject { pick: 0, len: 900 }, c16::NOp::RxFinish, c16::NOp::Receive, c16::NOp::Recycle(0), c16::NOp::TxBegin(100), c16::NOp::TxFinish(0)],
             },
             st,
